@@ -241,8 +241,13 @@ func kindOf(c *SegCase) string {
 // finishStream applies the oracles every stream run shares: recovered panics (C08) and
 // buffer ownership (C11); they fail the run only for their own property.
 func finishStream(o *common.Outcome, e *env, prop string) *common.Outcome {
+	if propOverride != "" {
+		prop = propOverride
+	}
+	lastFrees = e.Pool.Frees + e.Body.Frees
+	o.ProbeN("buffers_freed", lastFrees)
 	if p := e.recoveredPanic(); p != "" {
-		if prop == "C08" || prop == "C13" || prop == "C15" {
+		if prop == "C08" {
 			o.Fail("recovered-panic", "", "a panic was recovered and only logged: %s", p)
 		} else {
 			o.Probe("other_property_oracle_fired:C08:recovered-panic")
@@ -257,6 +262,9 @@ func finishStream(o *common.Outcome, e *env, prop string) *common.Outcome {
 	}
 	return o
 }
+
+// lastFrees is the number of buffers returned to the allocators in the last run.
+var lastFrees int
 
 func ownershipClass(v string) string {
 	switch {
